@@ -106,6 +106,16 @@ def run(ctx):
                 runs.append(Run("fn%d_%s_%d" % (oi, ext, dotted), {"in/order." + ext: render(sc)}, argv))
                 meta.append((si, "file-name %s %s" % (ext, "dotted" if dotted else "dot-less")))
         schemas.append(sc)
+    # YAML files whose extension is written in upper or mixed case and registered in that same spelling
+    for oi, sc in enumerate(list(SPECIAL[:1]) + schemas[len(SPECIAL):len(SPECIAL) + 2]):
+        si = len(schemas)
+        sc = {k: v for k, v in sc.items() if k not in ("$id", "id")}
+        runs.append(Run("ux%d_json" % oi, {"in/order.json": json.dumps(sc)}, ["-p", "pkg", "--resolve-extension", ".json", "in/order.json"]))
+        meta.append((si, "file-name json (extension-case twin)"))
+        for ext in (".YML", ".Yaml", ".YAML"):
+            runs.append(Run("ux%d_%s" % (oi, ext[1:]), {"in/order" + ext: to_yaml(sc) + "\n"}, ["-p", "pkg", "--resolve-extension", ext, "--yaml-extension", ext, "in/order" + ext]))
+            meta.append((si, "file-name yaml extension %s" % ext))
+        schemas.append(sc)
     # documents in which a keyword occurs twice in one object (legal JSON, the last occurrence counts): the anything-schema as `true` and as `{}` in either place
     for ti, tpl in enumerate(DUPLICATE_KEYS):
         si = len(schemas)
